@@ -232,6 +232,7 @@ func runC11(p *load.Program, r *oblig.Report) {
 	c.ruleR12()
 	c.ruleR13()
 	c11DoUnsetsDeadline(p, r)
+	c11ApiVersionsCount(p, r)
 	shareRules(r, "C11", "C11.R15 error exits of the response readers report what is left to drain (C17.R5)", func(sub *oblig.Report) { c17SizeThreading(p, sub) })
 }
 
@@ -1326,7 +1327,15 @@ func (c *c11ctx) ruleR13() {
 	}
 	ok, bad := an.MustPass(fn, an.EntryPoint(fn), func(i ssa.Instruction) bool {
 		call, isC := i.(*ssa.Call)
-		return isC && call.Call.StaticCallee() != nil && an.RefFuncName(call.Call.StaticCallee()) == "expectZeroSize"
+		if !isC || call.Call.StaticCallee() == nil {
+			return false
+		}
+		// … or the decoder refuses the response with an error of its own (a count the frame cannot hold): the caller
+		// closes the connection on it
+		if sc := call.Call.StaticCallee(); sc.Pkg != nil && ((sc.Pkg.Pkg.Path() == "fmt" && sc.Name() == "Errorf") || (sc.Pkg.Pkg.Path() == "errors" && sc.Name() == "New")) {
+			return true
+		}
+		return an.RefFuncName(call.Call.StaticCallee()) == "expectZeroSize"
 	}, edge)
 	where := ""
 	if bad != nil {
